@@ -131,22 +131,19 @@ impl NewerOptionMatcher {
         Ok(Self {
             x_option,
             y_option,
-            given_modification_time: metadata.modified()?,
+            // -newerXY compares against the reference file's Y timestamp
+            given_modification_time: y_option.get_file_time(&metadata)?,
         })
     }
 
     fn matches_impl(&self, file_info: &WalkEntry) -> Result<bool, Box<dyn Error>> {
+        // ... and looks at the X timestamp of the file being examined, only.
         let x_option_time = self.x_option.get_file_time(file_info.metadata()?)?;
-        let y_option_time = self.y_option.get_file_time(file_info.metadata()?)?;
 
         Ok(self
             .given_modification_time
             .duration_since(x_option_time)
-            .is_err()
-            && self
-                .given_modification_time
-                .duration_since(y_option_time)
-                .is_err())
+            .is_err())
     }
 }
 
